@@ -67,6 +67,9 @@ pub struct FramesCase {
     /// one thread removes the last bar from the MultiProgress while its owner keeps updating it
     #[serde(default)]
     remover: bool,
+    /// ... by giving the bar another draw target (set_draw_target(hidden)) instead of calling remove()
+    #[serde(default)]
+    unlink: bool,
 }
 
 fn body(c: &FramesCase) {
@@ -108,10 +111,14 @@ fn body(c: &FramesCase) {
         }));
     }
     if c.remover {
-        let (mp2, victim) = (mp.clone(), bars[n - 1].clone());
+        let (mp2, victim, unlink) = (mp.clone(), bars[n - 1].clone(), c.unlink);
         hs.push(shuttle::thread::spawn(move || {
             shuttle::thread::yield_now();
-            mp2.remove(&victim);
+            if unlink {
+                victim.set_draw_target(ProgressDrawTarget::hidden());
+            } else {
+                mp2.remove(&victim);
+            }
         }));
     }
     for h in hs {
@@ -205,11 +212,11 @@ pub fn property() -> Property {
         assumptions: &["hooks on: every lock/condvar/spawn/join is a scheduling point of shuttle; schedules are random or PCT, seeded"],
         parts: vec![Box::new(Gen::<FramesCase> {
             name: "sched_frames",
-            rule: "2-3 shuttle threads each own one bar of a shared MultiProgress and issue update(set_pos(k)); set_message(k) for k = 1..=updates (1-6), optionally a fourth thread calling mp.println and mp.suspend; 150 (thorough 2000) random or PCT schedules per program; every recorded frame must show each bar at most once, in order, in a state it really had, never older than in an earlier frame, and the last frame the final states",
+            rule: "2-3 shuttle threads each own one bar of a shared MultiProgress and issue update(set_pos(k)); set_message(k) for k = 1..=updates (1-6), optionally a fourth thread calling mp.println and mp.suspend, optionally one that takes the last bar out of the MultiProgress (remove() or set_draw_target(hidden)) while its owner keeps updating it - it must be gone from the last frame; 150 (thorough 2000) random or PCT schedules per program; every recorded frame must show each bar at most once, in order, in a state it really had, never older than in an earlier frame, and the last frame the final states",
             strategy: |t| {
                 let schedules = t.pick(150u32, 2000);
                 (2u8..=3, 1u8..=6, any::<u64>(), proptest::option::weighted(0.3, 1u8..4), any::<bool>(), proptest::bool::weighted(0.3))
-                    .prop_map(move |(threads, updates, seed, pct_depth, logger, remover)| FramesCase { threads, updates, seed, schedules, pct_depth, logger, remover })
+                    .prop_map(move |(threads, updates, seed, pct_depth, logger, remover)| FramesCase { threads, updates, seed, schedules, pct_depth, logger, remover, unlink: remover && seed % 2 == 0 })
                     .boxed()
             },
             cases: |t| t.pick(40, 600),
